@@ -131,7 +131,8 @@ reg = {
                             "conditional_free", "get_page_size", "push_all_except_deleted", "min_usize", "key", "push_child", "push_key"]},
         # the root update after a deletion, and MutateHelper::delete_key
         "rootupd": {"overlay": "units/rootupd.ovl", "canaries": ["canary_rootupd"],
-                    "helpers": ["get_page_number", "get_page", "new", "num_pairs", "build", "push_child", "push_key", "push_all_except_deleted", "delete_helper"]},
+                    "helpers": ["get_page_number", "get_page", "new", "num_pairs", "build", "push_child", "push_key", "push_all_except_deleted", "delete_helper",
+                                "apply_child_deletion_result", "delete_leaf_at_position", "delete_leaf_indexes"]},
         # the root update after an insertion
         "rootins": {"overlay": "units/rootins.ovl", "canaries": ["canary_rootins"],
                     "helpers": ["get_page_number", "get_page", "new", "num_pairs", "build", "push_child", "push_key", "as_ref", "len", "memory",
@@ -283,12 +284,12 @@ P["C04"] = {
     "verus": [{"unit": "search", "functions": ["LeafAccessor::position", "LeafAccessor::find_key", "LeafAccessor::num_pairs", "BranchAccessor::child_for_key", "BranchAccessor::num_keys",
                                                "Direction::entry_in_range_core"]},
               {"unit": "guardmut", "functions": ["AccessGuardMut::rebuild_leaf"]},
-              {"unit": "rootupd", "functions": ["MutateHelper::finish_deletion", "MutateHelper::delete_key", "DeletedPairs::len", "BtreeHeader::new"]},
+              {"unit": "rootupd", "functions": ["MutateHelper::finish_deletion", "MutateHelper::delete_key", "MutateHelper::pop_leaf_entry", "MutateHelper::delete_leaf_entries", "DeletedPairs::len", "BtreeHeader::new"]},
               {"unit": "rootins", "functions": ["MutateHelperI::insert"]},
               {"unit": "bigpair", "functions": ["MutateHelper::insert_beside_large_value"]}],
     "kani": [K["C04-T1"], K["C04-L1f"], K["C04-L1v"], K["C04-L2"]],
     "assumptions": ["D1 (rootupd unit): the recursive descent (delete_helper) is an uninterpreted function of the root page and the key; a page built in this transaction is a function of its page number; push_all_except_deleted pushes the pairs of the leaf without the deleted ones; the helper's root / allocator references are held by value (rule RX drops the `*` of `*self.root`)", "G1 (guardmut unit): a leaf page is the sequence of pairs it holds (LeafAccessor reads it, LeafBuilder::build allocates a page holding exactly the pairs pushed), a branch page the log of child pointers written into it; the guard's root reference is held by value", "S1 (search unit): K::compare is a function of the two byte strings and a total order (reflexive, antisymmetric, transitive) - that it is the value order of each built-in key type is property C15; the n-th key / child of a page is an uninterpreted function of the page (key_unchecked, key, child_page are assumed to return it; the byte layout is checked by the bounded Kani harnesses C04-L1/L2); the keys of a page are strictly increasing (precondition `sorted`, property C10)"],
-    "explanation": "Kernel = every lookup, insert and range scan reaches its entry through two binary searches, verified on their REAL loops for every page size and every total order: LeafAccessor::position reports a match only at an entry whose key equals the query and otherwise returns the insertion point (all keys before it smaller, all keys from it on larger), find_key finds a key exactly when the page holds it; BranchAccessor::child_for_key picks the child whose key interval contains the query (all separators before it smaller than the query, the separator at it greater or equal); the REAL bound test of the mutable range cursor (entry_in_range) yields an entry only while its key is on the inner side of the bound parked by the other end (Included / Excluded / Unbounded, both directions). (I) the REAL MutateHelper::insert: a new key raises the stored entry count by exactly one, an overwrite leaves it unchanged and reports the previous value; the first insert into an empty tree builds a one-pair leaf with count 1; when the root page split the new root is a fresh branch over exactly the two halves and their separator; (D) the REAL MutateHelper::delete_key / finish_deletion: removing from an empty tree or a key that is absent leaves the root - and its checksum - untouched; removing a present key stores a root whose entry count is exactly one lower, naming the page the descent produced (DEFERRED checksum) or the untouched remaining child (its retained checksum), and no root at all when the tree was emptied; (G) the REAL page-rebuild path of AccessGuardMut::insert (get_mut / entry API, new value does not fit): the rebuilt leaf holds the old pairs with exactly this entry's value replaced, the pointer redirected to it is the parent's pointer at the position recorded for the parent (or the tree root), with a deferred checksum, and the old leaf is released. Plus the leaf page as a sorted array (bounded model checking of the real writer, reader and binary search against the sequence of pairs handed to the builder) and the complete split/merge threshold arithmetic.",
+    "explanation": "Kernel = every lookup, insert and range scan reaches its entry through two binary searches, verified on their REAL loops for every page size and every total order: LeafAccessor::position reports a match only at an entry whose key equals the query and otherwise returns the insertion point (all keys before it smaller, all keys from it on larger), find_key finds a key exactly when the page holds it; BranchAccessor::child_for_key picks the child whose key interval contains the query (all separators before it smaller than the query, the separator at it greater or equal); the REAL bound test of the mutable range cursor (entry_in_range) yields an entry only while its key is on the inner side of the bound parked by the other end (Included / Excluded / Unbounded, both directions). (I) the REAL MutateHelper::insert: a new key raises the stored entry count by exactly one, an overwrite leaves it unchanged and reports the previous value; the first insert into an empty tree builds a one-pair leaf with count 1; when the root page split the new root is a fresh branch over exactly the two halves and their separator; (D) the REAL MutateHelper::delete_key / finish_deletion: removing from an empty tree or a key that is absent leaves the root - and its checksum - untouched; removing a present key stores a root whose entry count is exactly one lower, naming the page the descent produced (DEFERRED checksum) or the untouched remaining child (its retained checksum), and no root at all when the tree was emptied; pop_leaf_entry (pop_first / pop_last) and delete_leaf_entries (retain / extract) carry the change up the recorded path from the leaf's parent to the root, one level at a time in that order, and lower the count by exactly the number of entries removed; (G) the REAL page-rebuild path of AccessGuardMut::insert (get_mut / entry API, new value does not fit): the rebuilt leaf holds the old pairs with exactly this entry's value replaced, the pointer redirected to it is the parent's pointer at the position recorded for the parent (or the tree root), with a deferred checksum, and the old leaf is released. Plus the leaf page as a sorted array (bounded model checking of the real writer, reader and binary search against the sequence of pairs handed to the builder) and the complete split/merge threshold arithmetic.",
     "not_decided": "every tree operation of btree_mutator.rs: split, merge, rebalance, in-place leaf mutation (probed, too expensive), the cursor state machines around the verified bound test, multi-transaction histories",
 }
 P["C06"] = {
